@@ -247,6 +247,7 @@ def _replay_chunk(args):
     drv = _load_driver(name)
     out = []
     for line in lines:
+        beh = None
         try:
             beh = decode_behaviour(line) if isinstance(line, str) else line
             r = drv.replay(beh, opts)
@@ -256,9 +257,27 @@ def _replay_chunk(args):
                 r["behaviour"] = beh
                 r["driver"], r["opts"] = name, opts
             out.append(r)
-        except Exception as e:          # machinery failure inside the driver
-            out.append({"status": "error", "msg": "%s: %s\n%s" % (type(e).__name__, e, traceback.format_exc()[-1500:]),
-                        "behaviour": line if not isinstance(line, str) else line[:2000]})
+        except Exception as e:
+            # An exception that escaped the driver.  If it was *raised inside the library under test* while
+            # executing a behaviour of the specification (all of whose steps are inside the property's domain),
+            # the library failed where the specification says the operation succeeds: a divergence.  If it was
+            # raised by the harness's own code it is a machinery failure (exit 2), never a violation.
+            tb = e.__traceback__
+            last = None
+            while tb is not None:
+                last = tb.tb_frame.f_code.co_filename
+                tb = tb.tb_next
+            lib = os.path.realpath(REPO) + os.sep
+            if last and os.path.realpath(last).startswith(lib) and not isinstance(e, MachineryError):
+                out.append({"status": "diverge", "step": -1, "kind": "exception",
+                            "msg": "the library raised %s: %s (at %s) while replaying a behaviour the specification allows"
+                                   % (type(e).__name__, str(e)[:200], os.path.relpath(last, lib)),
+                            "expected": None, "observed": repr(e), "tags": [], "nontrivial": True, "kf": [],
+                            "behaviour": beh, "driver": name, "opts": opts,
+                            "trace": traceback.format_exc()[-1500:]})
+            else:
+                out.append({"status": "error", "msg": "%s: %s\n%s" % (type(e).__name__, e, traceback.format_exc()[-1500:]),
+                            "behaviour": line if not isinstance(line, str) else line[:2000]})
     return out
 
 
